@@ -392,7 +392,8 @@ func (e *Env) explore(sc *Scenario, res *Result) {
 			if sig == "" {
 				sig = o.Bad
 			}
-			if e.Known[sig] {
+			known := e.Known[sig]
+			if known {
 				if !knownSeen[sig] {
 					knownSeen[sig] = true
 					res.Violations = append(res.Violations, &Violation{Scenario: sc.Name, Msg: o.Bad, Sig: sig, Choices: o.Trace, Log: o.Log, Known: true})
@@ -418,8 +419,12 @@ func (e *Env) explore(sc *Scenario, res *Result) {
 					stop = true
 				}
 			}
-			// a violating execution's subtree is not expanded further
-			return
+			// a violating execution's subtree is not expanded further - unless the violation is a known
+			// finding: the alternatives below it (other answers at its later choice points) are different
+			// executions that a known finding must not hide
+			if !known {
+				return
+			}
 		}
 		cost := 0
 		for i := 0; i < len(prefix) && i < len(o.Trace); i++ {
